@@ -947,6 +947,45 @@ func fixedRedo(c *run.Ctx, b *evmmon.Base) {
 	}
 }
 
+// fixedSigners: only the weights of a multi-signature account's signers change (both, then one), then one signer is
+// replaced; every block's published logs are replayed.
+func fixedSigners(c *run.Ctx, b *evmmon.Base) {
+	cl := b.Cl
+	g := cl.G
+	u := b.W.Users
+	acc, s1, s2, s3 := b.Multisig, u[5], u[6], u[4] // the base chain registered {u5: 50, u6: 60} for this account
+	steps := []struct {
+		name    string
+		signers types.Signers
+		keys    []fx.Key
+	}{
+		{"weights-only", types.Signers{{Address: s1.Addr, Weight: 70}, {Address: s2.Addr, Weight: 80}}, []fx.Key{s1, s2}},
+		{"one-weight-only", types.Signers{{Address: s1.Addr, Weight: 70}, {Address: s2.Addr, Weight: 55}}, []fx.Key{s1, s2}},
+		{"signer-replaced", types.Signers{{Address: s1.Addr, Weight: 70}, {Address: s3.Addr, Weight: 55}}, []fx.Key{s1, s2}},
+	}
+	for _, st := range steps {
+		t := cl.NextTime()
+		tx := fx.Sign(g.B.ModifySignersUnsigned(acc.Addr, acc.Addr, st.signers, uint64(t)+900), st.keys...)
+		cands := []scn.Cand{g.C(tx, "signers-"+st.name, "ok")}
+		c.WAL(map[string]interface{}{"Monitor": "redo", "fixed": "signers-" + st.name})
+		res, err := b.N.Mine(cl.Head, t, scn.Txs(cands), "")
+		if err != nil || len(res.Block.Txs) != 1 {
+			c.Note("fixed signers scenario: step " + st.name + " not packaged")
+			return
+		}
+		wit := map[string]interface{}{"Monitor": "redo", "Chain": cl.Witness(t, cands, "redo fixed signers")}
+		if errs := cl.InsertAll(res.Block); errs[0] != nil {
+			c.Note("fixed signers scenario: block rejected: " + errs[0].Error())
+			return
+		}
+		g.U.Block(res.Block)
+		checkRedo(c, b.N, g.U, res.Block, wit)
+		c.Case("redo fixed signers "+st.name, true, map[string]interface{}{"monitor": "redo", "fixed": "signers-" + st.name})
+		cl.Adopt(res.Block)
+		cl.StabiliseAll()
+	}
+}
+
 // ---------------------------------------------------------------------------------------
 
 func runAll(c *run.Ctx) {
@@ -1009,6 +1048,7 @@ func runAll(c *run.Ctx) {
 		}
 		if c.Batch == 0 {
 			fixedRedo(c, b)
+			fixedSigners(c, b)
 		}
 	}
 }
